@@ -702,6 +702,51 @@ pub fn gen_condition(
     }
 }
 
+// ---------------------------------------------------------------------------
+// multiplicity family: one cross-spend item repeated N times, N around the 8-bit counter boundaries.
+// Each group is a list of bundles that are permutations of one another (spend order, condition order).
+// ---------------------------------------------------------------------------
+pub fn flood_groups() -> Vec<(String, Vec<Sx>)> {
+    let pa = vec![0x31u8; 32];
+    let pb = vec![0x32u8; 32];
+    let ph = vec![0x33u8; 32];
+    let id = |parent: &[u8], amt: u128| sha256(&[parent, &ph, &enc_uint(amt)]);
+    let (ida, idb) = (id(&pa, 5), id(&pb, 6));
+    let msg = vec![0xabu8, 0xcd];
+    // mode 0b111111: sender and receiver both committed to by coin id
+    let send = |to: &[u8]| Sx::list(vec![Sx::A(vec![66]), Sx::uint(63), Sx::A(msg.clone()), Sx::A(to.to_vec())]);
+    let recv = |from: &[u8]| Sx::list(vec![Sx::A(vec![67]), Sx::uint(63), Sx::A(msg.clone()), Sx::A(from.to_vec())]);
+    let spend = |parent: &[u8], amt: u128, conds: Vec<Sx>| Sx::list(vec![Sx::A(parent.to_vec()), Sx::A(ph.clone()), Sx::uint(amt), Sx::list(conds)]);
+    let bundle = |spends: Vec<Sx>| Sx::list(vec![Sx::list(spends)]);
+    let mut groups = Vec::new();
+    for n in [127usize, 128, 129, 255, 256, 257] {
+        for (label, nrecv) in [("balanced", n), ("one-receive-short", n - 1), ("one-receive-extra", n + 1)] {
+            // two spends: A sends n messages to B, B receives nrecv from A
+            let a = spend(&pa, 5, (0..n).map(|_| send(&idb)).collect());
+            let b = spend(&pb, 6, (0..nrecv).map(|_| recv(&ida)).collect());
+            groups.push((format!("msg-2spends-{n}-{label}"), vec![bundle(vec![a.clone(), b.clone()]), bundle(vec![b, a])]));
+            // one spend messaging itself: sends first, receives first, interleaved
+            let s: Vec<Sx> = (0..n).map(|_| send(&ida)).collect();
+            let r: Vec<Sx> = (0..nrecv).map(|_| recv(&ida)).collect();
+            let mut sr = s.clone();
+            sr.extend(r.clone());
+            let mut rs = r.clone();
+            rs.extend(s.clone());
+            let mut mix = Vec::new();
+            for i in 0..n.max(nrecv) {
+                if i < n {
+                    mix.push(s[i].clone());
+                }
+                if i < nrecv {
+                    mix.push(r[i].clone());
+                }
+            }
+            groups.push((format!("msg-self-{n}-{label}"), vec![bundle(vec![spend(&pa, 5, sr)]), bundle(vec![spend(&pa, 5, rs)]), bundle(vec![spend(&pa, 5, mix)])]));
+        }
+    }
+    groups
+}
+
 pub fn random_flags(r: &mut StdRng) -> Vec<String> {
     let mut v = Vec::new();
     for (i, (n, _)) in FLAG_NAMES.iter().enumerate().take(5) {
@@ -786,6 +831,18 @@ pub fn record(args: &Args) {
                 }
                 let tree = Sx::list(vec![Sx::list(spends)]);
                 out.emit(&event(&tree, &flags, 11_000_000_000, 0, "empty", &consts));
+            }
+        }
+    }
+    // multiplicity family (absolute verdict and summary against the machine)
+    if args.u64("flood", 0) > 0 {
+        for (_label, trees) in flood_groups() {
+            for (i, tree) in trees.iter().enumerate() {
+                let fl: &[&str] = if i % 2 == 0 { &["DONT_VALIDATE_SIGNATURE"] } else { &["DONT_VALIDATE_SIGNATURE", "COST_CONDITIONS"] };
+                let flags: Vec<String> = fl.iter().map(|x| (*x).to_string()).collect();
+                let mut e = event(tree, &flags, 11_000_000_000, 0, if i == 0 { "mempool" } else { "empty" }, &consts);
+                e["src"] = json!("flood");
+                out.emit(&e);
             }
         }
     }
